@@ -90,8 +90,9 @@ def replay_case(case, tag, rng, tier):
 
     num = rng.choice(("float", "int"))
     for which, (x, y) in (("base", (a, b)), ("t", (case["ta"], case["tb"]))):
-        la, e1 = call(build, x, pose, num)
-        lb, e2 = call(build, y, pose, num)
+        # bodies are presented with seeded face orders / orientations and vertex orders (a property of the input, not of the set)
+        la, e1 = call((lambda o: represent(o, pose, num, rng)) if rng.random() < 0.5 else (lambda o: build(o, pose, num)), x)
+        lb, e2 = call((lambda o: represent(o, pose, num, rng)) if rng.random() < 0.5 else (lambda o: build(o, pose, num)), y)
         if e1 is not None or e2 is not None:
             bad("C13.construct", "%s side could not be constructed" % which, e1 or e2, which)
             continue
